@@ -168,6 +168,7 @@ def _decorate_namespace_function(
         base_postconditions = []  # type: List[Contract]
 
         bases_have_func = False
+        bases_accept_all = False
         for base in bases:
             if hasattr(base, key):
                 bases_have_func = True
@@ -183,6 +184,16 @@ def _decorate_namespace_function(
                         base_contract_checker.__postcondition_snapshots__
                     )
                     base_postconditions.extend(base_contract_checker.__postconditions__)
+
+                if (
+                    base_contract_checker is None
+                    or not base_contract_checker.__preconditions__
+                ):
+                    # This base accepts all the input, so the function must accept all the input as well.
+                    bases_accept_all = True
+
+        if bases_accept_all:
+            base_preconditions = []
 
         # Collapse preconditions and postconditions from the bases with the function's own ones
         preconditions = _collapse_preconditions(
@@ -247,6 +258,7 @@ def _decorate_namespace_property(
         base_postconditions = []  # type: List[Contract]
 
         bases_have_func = False
+        bases_accept_all = False
         for base in bases:
             if hasattr(base, key):
                 base_property = getattr(base, key)
@@ -283,6 +295,13 @@ def _decorate_namespace_property(
                     )
                     base_postconditions.extend(base_contract_checker.__postconditions__)
 
+                if (
+                    base_contract_checker is None
+                    or not base_contract_checker.__preconditions__
+                ):
+                    # This base accepts all the input, so the function must accept all the input as well.
+                    bases_accept_all = True
+
         # Add preconditions and postconditions of the function
         preconditions = []  # type: List[List[Contract]]
         snapshots = []  # type: List[Snapshot]
@@ -293,6 +312,9 @@ def _decorate_namespace_property(
             preconditions = contract_checker.__preconditions__  # type: ignore
             snapshots = contract_checker.__postcondition_snapshots__  # type: ignore
             postconditions = contract_checker.__postconditions__  # type: ignore
+
+        if bases_accept_all:
+            base_preconditions = []
 
         preconditions = _collapse_preconditions(
             base_preconditions=base_preconditions,
